@@ -19,7 +19,12 @@ Definition sproj := list (str * sjob).
    [sh_dk] the real handle has _directory_known set, [sh_doc] it holds a document object created when the
    job had generation g *)
 (* [sh_byid]: obtained by id (or a copy of such a handle): it may not know its state point *)
-Record shandle := mkSH { sh_root : path; sh_cell : nat; sh_dk : bool; sh_doc : option nat; sh_byid : bool }.
+(* the handle's document OBJECT (bookkeeping for finding 3 only): [d_t] when it was created (a point on the scale of the
+   job generations: an object older than the current incarnation of the job holds that earlier incarnation's data),
+   [d_id] its identity (shallow copies taken after the first document access share the object, deep copies / pickles get
+   a copy), [d_clean] its in-memory data was emptied by remove() through one of the handles that share it *)
+Record sdoc := mkSD { d_t : nat; d_id : nat; d_clean : bool }.
+Record shandle := mkSH { sh_root : path; sh_cell : nat; sh_dk : bool; sh_doc : option sdoc; sh_byid : bool }.
 
 Record sstate := mkSS {
   ss_projs : list (path * sproj);
@@ -103,14 +108,32 @@ Section Spec.
 
   Definition mark_dk (s : sstate) (h : nat) : sstate :=
     let x := hS s h in set_hS s h (mkSH (sh_root x) (sh_cell x) true (sh_doc x) (sh_byid x)).
-  (* the handle creates its document object now (if it has none), for the current generation of its job *)
+  (* every handle that shares the document object [i] *)
+  Definition map_doc (s : sstate) (i : nat) (f : sdoc -> option sdoc) : sstate :=
+    mkSS (ss_projs s) (ss_sess s)
+         (map (fun y => match sh_doc y with
+                        | Some d => if Nat.eqb (d_id d) i then mkSH (sh_root y) (sh_cell y) (sh_dk y) (f d) (sh_byid y) else y
+                        | None => y end) (ss_hs s))
+         (ss_cells s) (ss_gen s) (ss_planted s) (ss_orph s).
+  (* the handle creates its document object now (if it has none); an emptied object that is used again while the job
+     exists is as good as new *)
   Definition mark_doc (s : sstate) (h : nat) : sstate :=
     let x := hS s h in
     match sh_doc x with
-    | Some _ => s
-    | None => set_hS s h (mkSH (sh_root x) (sh_cell x) true
-                               (Some (match job_of s h with Some j => j_gen j | None => 0 end)) (sh_byid x))
+    | Some d =>
+        if d_clean d && match job_of s h with Some _ => true | None => false end
+        then bump (map_doc s (d_id d) (fun d' => Some (mkSD (ss_gen s) (d_id d') false)))
+        else s
+    | None => bump (set_hS s h (mkSH (sh_root x) (sh_cell x) true (Some (mkSD (ss_gen s) (ss_gen s) false)) (sh_byid x)))
     end.
+  (* clear() / reset() through the handle: its document object is loaded, emptied and saved - current again *)
+  Definition fresh_doc (s : sstate) (h : nat) : sstate :=
+    match sh_doc (hS s h) with
+    | Some d => bump (map_doc s (d_id d) (fun d' => Some (mkSD (ss_gen s) (d_id d') false)))
+    | None => s
+    end.
+  Definition copy_doc (n : nat) (o : option sdoc) : option sdoc :=
+    match o with Some d => Some (mkSD (d_t d) (d_id d * 1000 + S n) (d_clean d)) | None => None end.
 
   (* the state point of the job changes to [new] through handle h (sp[k]=v, del, assignment, update_statepoint) *)
   Definition rekey_spec (s : sstate) (h : nat) (new : json) : sstate * sres :=
@@ -196,7 +219,7 @@ Section Spec.
         if created out then
           let x := hS s h in
           let s1 := add_sessS (add_cellS s (cellS s (sh_cell x))) (sh_root x) in
-          let s2 := add_hS s1 (mkSH (sh_root x) (length (ss_cells s)) (sh_dk x) (sh_doc x) (sh_byid x)) in
+          let s2 := add_hS s1 (mkSH (sh_root x) (length (ss_cells s)) (sh_dk x) (copy_doc (length (ss_hs s)) (sh_doc x)) (sh_byid x)) in
           (* the copy of a cell that still lists a moved handle lists (a copy of) it too *)
           (if existsb (Nat.eqb (sh_cell x)) (ss_orph s) then
              mkSS (ss_projs s2) (ss_sess s2) (ss_hs s2) (ss_cells s2) (ss_gen s2) (ss_planted s2)
@@ -250,17 +273,23 @@ Section Spec.
     | ORemove h =>
         let x := hS s h in
         let s1 := set_proj s (sh_root x) (aremove (cid (cellS s (sh_cell x))) (proj_of s (sh_root x))) in
-        (* bookkeeping for finding 3: remove() of a job that is already gone leaves the handle's document object alone *)
-        (set_hS s1 h (mkSH (sh_root x) (sh_cell x) false
+        (* bookkeeping for finding 3: remove() of an existing job empties the handle's document object - which the
+           shallow copies taken after the first document access SHARE - and drops it from this handle; remove() of a job
+           that is already gone leaves the object alone *)
+        let s2 := match job_of s h, sh_doc x with
+                  | Some _, Some d => map_doc s1 (d_id d) (fun d' => Some (mkSD (d_t d') (d_id d') true))
+                  | _, _ => s1
+                  end in
+        (set_hS s2 h (mkSH (sh_root x) (sh_cell x) false
                            (match job_of s h with Some _ => None | None => sh_doc x end) (sh_byid x)), SOk)
     | OClear h =>
         match job_of s h with
-        | Some j => (mark_doc (set_job s h (mkSJ (j_sp j) (JObj []) [] (j_gen j))) h, SOk)
+        | Some j => (fresh_doc (mark_doc (set_job s h (mkSJ (j_sp j) (JObj []) [] (j_gen j))) h) h, SOk)
         | None => (s, SOk)
         end
     | OReset h =>
         match job_of s h with
-        | Some j => (mark_doc (set_job s h (mkSJ (j_sp j) (JObj []) [] (j_gen j))) h, SOk)
+        | Some j => (fresh_doc (mark_doc (set_job s h (mkSJ (j_sp j) (JObj []) [] (j_gen j))) h) h, SOk)
         | None => (mark_dk (ensure_job s h) h, SOk)
         end
     | OUpdateCache _ | OCheck _ | OTree | OQuiet | OSnap => (s, SAny)
@@ -296,7 +325,7 @@ Section Spec.
   (* ---------------------------------------------------------------- triggers of the known defects *)
   (* several handles restored from ONE pickle: one restored Project, handles that shared a state point share the
      restored one *)
-  Fixpoint srestore (s : sstate) (hs : list nat) (cm : list (nat * nat)) (acc : list nat) : sstate * list nat :=
+  Fixpoint srestore_at (off : nat) (s : sstate) (hs : list nat) (cm : list (nat * nat)) (acc : list nat) : sstate * list nat :=
     match hs with
     | [] => (s, acc)
     | h :: rest =>
@@ -305,8 +334,12 @@ Section Spec.
                               | Some cj => (s, cj, cm)
                               | None => (add_cellS s (cellS s (sh_cell x)), length (ss_cells s), (sh_cell x, length (ss_cells s)) :: cm)
                               end in
-        srestore (add_hS s1 (mkSH (sh_root x) cj (sh_dk x) (sh_doc x) (sh_byid x))) rest cm' (acc ++ [length (ss_hs s1)])
+        srestore_at off (add_hS s1 (mkSH (sh_root x) cj (sh_dk x) (copy_doc off (sh_doc x)) (sh_byid x))) rest cm'
+                    (acc ++ [length (ss_hs s1)])
     end.
+  (* (handles that shared a document object share the restored copy: one offset per pickle) *)
+  Definition srestore (s : sstate) (hs : list nat) (cm : list (nat * nat)) (acc : list nat) : sstate * list nat :=
+    srestore_at (length (ss_hs s)) s hs cm acc.
 
   Fixpoint sfresh (s : sstate) (nhs : list nat) (fs : list fop) (outs : list oval) : sstate * list sres :=
     match fs, outs with
@@ -342,7 +375,7 @@ Section Spec.
     let x := hS s h in
     match job_of s h with
     | None => sh_dk x || match sh_doc x with Some _ => true | None => false end
-    | Some j => match sh_doc x with Some g => negb (Nat.eqb g (j_gen j)) | None => false end
+    | Some j => match sh_doc x with Some d => negb (d_clean d) && Nat.ltb (d_t d) (j_gen j) | None => false end
     end.
 
   (* tags 1, 2, 5, 6, 7 were repaired in /repo (5a38a4a, 5e72814, 270ca63, b6340e2, d38783c) and are no longer
